@@ -108,12 +108,59 @@ def _handler_names(h):
     return [_exc_name(h.type)]
 
 
+def _strict_bool_locals(fn):
+    """local names every binding of which assigns a real bool (True / False, a comparison, `not ...`,
+    isinstance(...), and/or of such)"""
+    def strict(e):
+        if isinstance(e, ast.Constant):
+            return isinstance(e.value, bool)
+        if isinstance(e, ast.Compare):
+            return True
+        if isinstance(e, ast.UnaryOp) and isinstance(e.op, ast.Not):
+            return True
+        if isinstance(e, ast.BoolOp):
+            return all(strict(v) for v in e.values)
+        if isinstance(e, ast.Call) and isinstance(e.func, ast.Name) and e.func.id in ("isinstance", "bool", "hasattr", "callable", "issubclass"):
+            return True
+        return False
+    good, bad = set(), set()
+    a = fn.args
+    params = {x.arg for x in a.posonlyargs + a.args + a.kwonlyargs}
+    for n in ast.walk(fn):
+        if isinstance(n, ast.Assign):
+            for t in n.targets:
+                if isinstance(t, ast.Name):
+                    (good if strict(n.value) else bad).add(t.id)
+                else:
+                    for y in ast.walk(t):
+                        if isinstance(y, ast.Name):
+                            bad.add(y.id)
+        elif isinstance(n, (ast.AugAssign, ast.AnnAssign, ast.NamedExpr)):
+            t = n.target
+            if isinstance(t, ast.Name):
+                bad.add(t.id)
+        elif isinstance(n, (ast.For, ast.comprehension)):
+            for y in ast.walk(n.target):
+                if isinstance(y, ast.Name):
+                    bad.add(y.id)
+        elif isinstance(n, ast.ExceptHandler) and n.name:
+            bad.add(n.name)
+        elif isinstance(n, (ast.With, ast.AsyncWith)):
+            for it in n.items:
+                if it.optional_vars is not None:
+                    for y in ast.walk(it.optional_vars):
+                        if isinstance(y, ast.Name):
+                            bad.add(y.id)
+    return good - bad - params
+
+
 class CFG:
     def __init__(self, func, oracle=None):
         """func: FuncInfo.  oracle: object with .raises(expr_roots, func) -> set of exception
         names raised by calls in these expressions, and .exc_is_subclass(a, b) -> True/False/None."""
         self.func = func
         self.oracle = oracle
+        self.bool_locals = _strict_bool_locals(func.node)
         self.nodes = []
         self.escaping = set()  # exception types that can leave the function
         self.entry = self._new("entry").id
@@ -252,6 +299,14 @@ class CFG:
             return t if expr.value else f
         from .astutil import positive
         pexpr, flipped = positive(expr)
+        # a local that only ever holds a real bool: `flag is False` / `flag == False` is `not flag`
+        if isinstance(pexpr, ast.Compare) and len(pexpr.ops) == 1 and isinstance(pexpr.ops[0], (ast.Is, ast.Eq)) \
+                and isinstance(pexpr.left, ast.Name) and pexpr.left.id in self.bool_locals \
+                and isinstance(pexpr.comparators[0], ast.Constant) and isinstance(pexpr.comparators[0].value, bool):
+            if not pexpr.comparators[0].value:
+                flipped = not flipped
+            pexpr = pexpr.left
+            expr = pexpr
         if flipped:
             # atoms are kept in positive form (`a != b` is the F edge of `a == b`): a guard reads the same
             # whether the source tests the condition or its negation
